@@ -120,7 +120,7 @@ def c01(tier):
             lc = scen.lossless_class(fmt, T)
             if not lc:
                 continue
-            Ns = sorted(set([0, 1, 2, B - 1, B, B + 1, 2 * B + 1])) if tier == "quick" else sorted(set([0, 1, 2, 3, B - 1, B, B + 1, 2 * B - 1, 2 * B + 1, 4095, 4097, 8193]))
+            Ns = sorted(set([0, 1, 2, B - 1, B, B + 1, 2 * B + 1])) if tier == "quick" else sorted(set([0, 1, 2, 3, B - 1, B, B + 1, 2 * B - 1, 2 * B + 1] + ([4095, 4097, 8193] if ch <= 2 else [1025])))
             Ns = [n for n in Ns if n >= 0]
             steps = [("steps", lc[1])] if T in "si" else []
             classes = [lc] + steps if tier == "quick" else [lc, ("ext", 0) if lc[1] == 0 else lc, ("zeros", 0), ("ramp", 0) if lc[1] == 0 else lc] + steps
@@ -230,6 +230,8 @@ def c06(tier):
     # TLC-generated histories (all seek/read sequences over the replay alphabet) on read handles
     depth = 3 if tier == "quick" else 4
     hists, gst = gen_core.gen_rw("R", 3, depth)
+    if tier == "thorough":      # depth 4 gives ~10^6 histories: every 100th (offset by the seed) on each format
+        hists = hists[vlib.SEED % 100::100]
     fam = [0x10002, 0x20001, 0x30006, 0x180004, 0xb0007] if tier == "quick" else [f for f, c in _fmts(exe, tier, (1,)) if scen.block_hint(f, 1, RATE) == 1][::3]
     for fmt in fam:
         for h in hists:
@@ -253,12 +255,14 @@ def c08(tier):
                 for rep in range(1 if tier == "quick" else 4):
                     gen_core.rdwr_random(S, fmt, ch, RATE, rng, steps=50 if tier == "quick" else 150, pre=pre, route="fd")
     depth = 3 if tier == "quick" else 4
-    fam = [0x10002, 0x20004, 0x30006, 0x40001, 0x180003] if tier == "quick" else [0x10002, 0x10005, 0x10006, 0x20004, 0x20002, 0x30006, 0x30007, 0x40001, 0x180003, 0xb0002, 0x220002, 0x50002, 0x70003, 0xa0006, 0xc0007, 0xd0004, 0xe0004, 0x100002, 0x120002, 0x210002, 0x60002]
+    fam = [0x10002, 0x20004, 0x30006, 0x40001, 0x180003] if tier == "quick" else [0x10002, 0x10005, 0x10006, 0x20004, 0x30007, 0x40001, 0x180003, 0xb0002, 0x220002, 0x50002, 0x70003, 0xa0006, 0xc0007, 0xd0004]
     nh = 0
     gsts = []
     for pre in (0, 2):
         hists, gst = gen_core.gen_rw("RW", pre, depth)
         gsts.append(gst)
+        if tier == "thorough":
+            hists = hists[vlib.SEED % 60::60]
         nh += len(hists)
         for fmt in fam:
             for h in hists:
@@ -297,6 +301,8 @@ def c09(tier):
         gsts.append(gst)
         if tier == "quick":      # the invalid-call clauses are format independent: every 3rd history on one format per run
             hists = hists[vlib.SEED % 3::3]
+        else:
+            hists = hists[vlib.SEED % 40::40]
         nh += len(hists)
         for fmt in ([0x10002] if tier == "quick" else [0x10002, 0x30006, 0x20004, 0x180003]):
             for h in hists:
@@ -588,7 +594,7 @@ def c03(tier):
         fmts = [x for x in fmts if x[1] == 1] + [x for x in fmts if x[1] == 2][::5]
     seeds = gen_c03.seed_files(exe, fmts, RATE, od)
     S = scen.Script()
-    per = 110 if tier == "quick" else 2500
+    per = 110 if tier == "quick" else 1200
     gen_c03.scenarios(S, seeds, rng, per, routes=("vio", "vio", "fd", "pipe") if tier == "thorough" else ("vio", "vio", "vio", "fd", "pipe"), ncalls=10 if tier == "quick" else 16)
     mcs = [gen_core.mc_rw("R", 2, tag=tier[0])]
     return core_check("C03", tier, mcs, S.lines, "DESIGN.md section 6 C03",
